@@ -135,8 +135,27 @@ def all_depth1():
     return out
 
 
-def programs(rng, tier):
+# operands that are unequal yet close (1e-5 relative and nearer), all exactly representable in int64 / binary32
+CLOSE = [("[100000 7]", "[100001 7]"), ("100000", "100001"), ("[16777216 3]", "[16777217 3]"),
+         ("[4096.0 2.5]", "[4096.03125 2.5]"), ("[1000000 1000001 5]", "[1000001 1000001 5]"), ("[1 2 3]", "[1 2 4]")]
+# comparisons whose operands are computed sub-expressions or literal lists (never handled by the expression compiler)
+CMP_FORMS = ["(|a)=|b", "(2#a)=2#b", "(1_a)=1_b", "(a,a)=b,b", "(|a)<|b", "(|a)>|b", "(2#a)<2#b", "a=b", "a<b", "a>b",
+             "({x}'a)={x}'b", "(+\\a)=+\\b", "(a@0)=b@0", "+/(|a)=|b", "(|a)=|a", "(-a)=-b", "(a+0)=b"]
+
+
+def close_programs():
     progs = []
+    for a, b in CLOSE:
+        for e in CMP_FORMS:
+            progs.append(["a::" + a, "b::" + b, e])
+            progs.append(["a::" + b, "b::" + a, e])
+        progs.append(["a::" + a, "a=" + b])
+        progs.append(["a::" + a, "(|a)=|" + b])
+    return progs
+
+
+def programs(rng, tier):
+    progs = close_programs()
     kinds = list(BIND)
     reps = 6 if tier == "quick" else 40
     flat = [k for k in kinds if not k.startswith("m2")]
@@ -270,13 +289,13 @@ def check_differential(chk, rng, tier):
             chk.sample({"program": prog, "numpy": a[:2], "torch": b[:2]}, limit=6)
             continue
         chk.count("both_return")
-        if prog[2] not in seen:
-            seen.add(prog[2])
+        if prog[-1] not in seen:
+            seen.add(prog[-1])
             chk.count("distinct_nontrivial")
         va, vb = parse_sx(a[1]), parse_sx(b[1])
         why = compare_vals(va, vb)
-        scan0d = (why == "shape" and "\\" in prog[2] and isinstance(va, list) and va[0] == "l" and len(va) == 2 and compare_vals(va[1], vb) is None) \
-            or (why is not None and re.search(r"[+*|&]\\\(?[+*|&]/", prog[2]) is not None)      # a scan applied directly to a reduction
+        scan0d = (why == "shape" and "\\" in prog[-1] and isinstance(va, list) and va[0] == "l" and len(va) == 2 and compare_vals(va[1], vb) is None) \
+            or (why is not None and re.search(r"[+*|&]\\\(?[+*|&]/", prog[-1]) is not None)      # a scan applied directly to a reduction
         if scan0d:
             chk.count("scan_of_0d_tensor")
             chk.finding("C08-torch-scan-0d", "scan of a 0-d tensor", {"program": prog, "numpy": a, "torch": b})
